@@ -85,6 +85,20 @@ pub fn cmd_utf16(args: &[String]) {
             // arbitrary u16 input incl. lone surrogates: no panic, ranges inside the slice
             let len = r.below(8) as usize;
             let junk: Vec<u16> = (0..len).map(|_| *r.pick(&[0x61u16, 0x62, 0xD800, 0xDC00, 0xDBFF, 0xDFFF, 0xE9, 0x212A, 0x0A, 0xD83D, 0xDE00, 0xFFFF, 0x0])).collect();
+            // the cursor itself (hook export), every offset, both directions, both input types: for the model driver
+            for units in [&junk, &t16] {
+                if units.len() > 24 { continue; }
+                let ux: String = if units.is_empty() { "-".into() } else { units.iter().map(|u| format!("{:x}", u)).collect::<Vec<_>>().join(",") };
+                for off in 0..=units.len() {
+                    for (fw, uc) in [(true, false), (false, false), (true, true), (false, true)] {
+                        let res = regress::verif::utf16_step(units, off, fw, uc);
+                        match res {
+                            Some((c, q)) => writeln!(w, "D {} {} {} {} {} {}", uc as u8, fw as u8, ux, off, c, q).unwrap(),
+                            None => writeln!(w, "D {} {} {} {} N", uc as u8, fw as u8, ux, off).unwrap(),
+                        }
+                    }
+                }
+            }
             for which in 0..2 {
                 crate::verif::reset_steps(200_000);
                 let res = panic::catch_unwind(panic::AssertUnwindSafe(|| -> Vec<(usize, usize, Vec<Option<(usize, usize)>>)> {
